@@ -517,9 +517,19 @@ def parse(path):
     M = Mod()
     cur = None
     blk = None
+    pending = None
     for raw in open(path):
         line = raw.rstrip('\n')
         if not line:
+            continue
+        if pending is not None:
+            pending += ' ' + line.strip()
+            if line.strip() != ']':
+                continue
+            line = pending
+            pending = None
+        elif cur is not None and line.lstrip().startswith('switch ') and line.rstrip().endswith('['):
+            pending = line
             continue
         c0 = line[0]
         if cur is None:
